@@ -336,6 +336,9 @@ namespace bluetoe
                             if ( start_address > end_address || !MemRegions::acceptable( start_address,end_address ) )
                                 return request_error( bluetoe::error_codes::invalid_offset );
 
+                            // start_address is reused; data that would follow now, would be flashed to the wrong address
+                            in_flash_mode = false;
+
                             check_sum = this->public_checksum32( start_address, end_address - start_address );
                         }
                         break;
@@ -401,6 +404,9 @@ namespace bluetoe
 
                             if ( start_address > end_address || !MemRegions::acceptable( start_address,end_address ) )
                                 return request_error( bluetoe::error_codes::invalid_offset );
+
+                            // start_address is reused; data that would follow now, would be flashed to the wrong address
+                            in_flash_mode = false;
 
                             if ( start_address != end_address )
                             {
